@@ -17,7 +17,8 @@
 //	{"a":"crashcommit","done":[classes]}   the process dies inside Commit after exactly these writes
 //
 // and every step may carry "loads":[v..] (LoadVersion(v) on a fresh handle + versioned view on the
-// live one) and "queries":[[via,store,key,height,prove]..].
+// live one), "queries":[[via,store,key,height,prove]..] and "subs":[[via,store,prefix,height]..]
+// ("/<store>/subspace" queries).  Keys are NAMES; cfg.palette says which bytes a name stands for.
 package main
 
 import (
@@ -42,6 +43,7 @@ type Step struct {
 	Done    []string        `json:"done,omitempty"`
 	Loads   []int64         `json:"loads,omitempty"`
 	Queries [][]interface{} `json:"queries,omitempty"`
+	Subs    [][]interface{} `json:"subs,omitempty"`
 }
 
 type Program struct {
@@ -75,6 +77,19 @@ func observe(n *sl.Node, st Step, out sl.M) {
 			qs = append(qs, r)
 		}
 		out["queries"] = qs
+	}
+	if len(st.Subs) > 0 && n.H != nil {
+		ss := []sl.M{}
+		for _, q := range st.Subs {
+			via, _ := q[0].(string)
+			store, _ := q[1].(string)
+			prefix, _ := q[2].(string)
+			h, _ := q[3].(float64)
+			r := sl.Subspace(n.H, n.DB, n.Cfg, via, store, prefix, int64(h))
+			r["q"] = q
+			ss = append(ss, r)
+		}
+		out["subs"] = ss
 	}
 }
 
@@ -302,11 +317,20 @@ func record(args []string) int {
 	pruneAfter := fs.Bool("prune-after-flush", false, "log the pruning steps that wrote nothing after the flush (for code that prunes after the flush)")
 	strategy := fs.String("strategy", "", "pruning strategy string resolved by store.NewPruningOptionsFromString (overrides --kr/--ke; may be empty: see --use-strategy)")
 	useStrategy := fs.Bool("use-strategy", false, "take the pruning options from --strategy")
+	palette := fs.String("palette", "", `JSON object letter -> hex image: the bytes a key name stands for (see storelib.Cfg.Palette)`)
+	noProve := fs.Bool("noprove", false, "never ask for proofs (used with palettes that contain 0xFF bytes)")
 	pll := fs.Float64("pliveload", 0, "probability of LoadVersion calls on the live handle after a commit (and a quarter of it between two writes)")
 	fs.Parse(args)
 
 	rng := rand.New(rand.NewSource(*seed))
+	noProveFlag = *noProve
 	cfg := sl.Cfg{Transient: "t1", KR: *kr, KE: *ke, Backend: *backend, SPAL: *spal}
+	if *palette != "" {
+		if err := json.Unmarshal([]byte(*palette), &cfg.Palette); err != nil {
+			fmt.Fprintln(os.Stderr, "bad --palette:", err)
+			return 2
+		}
+	}
 	stratName := "<pair>" // MultiStore.tla: NoStrategy
 	if *useStrategy {
 		cfg.Strat = strategy
@@ -331,7 +355,8 @@ func record(args []string) int {
 		return 2
 	}
 	defer n.Close()
-	emit(sl.M{"a": "reset", "kr": rkr, "ke": rke, "strat": stratName, "spal": *spal, "stores": cfg.Stores, "seed": *seed, "backend": *backend})
+	palJSON, _ := json.Marshal(cfg.Palette) // as text: the trace monitor never reads it
+	emit(sl.M{"a": "reset", "palette": string(palJSON), "kr": rkr, "ke": rke, "strat": stratName, "spal": *spal, "stores": cfg.Stores, "seed": *seed, "backend": *backend})
 	open := func() bool {
 		r := n.Reopen()
 		r["a"] = "open"
@@ -571,8 +596,56 @@ func loadBurst(n *sl.Node, rng *rand.Rand, emit func(sl.M), k int) {
 	}
 }
 
+// prefixes of the recorded "/subspace" queries: a prefix whose successor is a stored key ("a" with
+// "b"), prefixes equal to whole keys, a prefix nobody has, a longer family
+var noProveFlag bool
+
+var subPrefixes = []string{"a", "ab", "abc", "b", "ba", "c", "k", "k/", "z", "q"}
+
+func subspaceQuery(n *sl.Node, rng *rand.Rand, emit func(sl.M)) {
+	last := n.H.MS.LastCommitID().Version
+	s := n.Cfg.Stores[rng.Intn(len(n.Cfg.Stores))]
+	p := subPrefixes[rng.Intn(len(subPrefixes))]
+	h := int64(0)
+	if rng.Intn(2) == 0 {
+		h = rng.Int63n(last + 3) // the height is ignored by the code: any height, also pruned and future ones
+	}
+	via := "ms"
+	if rng.Intn(3) == 0 {
+		via = "app"
+	}
+	r := sl.Subspace(n.H, n.DB, n.Cfg, via, s, p, h)
+	e := sl.M{"a": "subspace", "via": via, "s": s, "p": p, "h": h}
+	if _, bad := r["panic"]; bad {
+		e["a"] = "querypanic"
+		e["k"] = p
+		e["sub"] = true
+		e["panic"] = r["panic"]
+		e["ok"] = false
+		e["kv"] = sl.M{}
+		e["n"] = 0
+		e["sorted"] = true
+		emit(e)
+		return
+	}
+	kv := sl.M{}
+	pairs := r["kv"].([][]string)
+	for _, x := range pairs {
+		kv[x[0]] = x[1]
+	}
+	e["ok"] = r["answered"]
+	e["kv"] = kv
+	e["n"] = len(pairs) // = number of distinct keys unless a key came twice
+	e["sorted"] = r["sorted"]
+	e["log"] = r["log"]
+	emit(e)
+}
+
 func queryBurst(n *sl.Node, rng *rand.Rand, keys []string, emit func(sl.M), k int) {
 	last := n.H.MS.LastCommitID().Version
+	for i := 0; i < (k+1)/2; i++ {
+		subspaceQuery(n, rng, emit)
+	}
 	for i := 0; i < k; i++ {
 		s := n.Cfg.Stores[rng.Intn(len(n.Cfg.Stores))]
 		key := keys[rng.Intn(len(keys))]
@@ -593,14 +666,15 @@ func queryBurst(n *sl.Node, rng *rand.Rand, keys []string, emit func(sl.M), k in
 		if h < 0 {
 			h = 0
 		}
-		prove := rng.Intn(2) == 0
+		prove := rng.Intn(2) == 0 && !noProveFlag
 		via := "ms"
 		if rng.Intn(3) == 0 {
 			via = "app"
 		}
 		r := sl.Query(n.H, n.DB, n.Cfg, via, s, key, h, prove, n.Hashes)
 		if _, bad := r["panic"]; bad {
-			emit(sl.M{"a": "query", "via": via, "s": s, "k": key, "h": h, "p": prove, "panic": r["panic"], "err": true, "value": "<nil>", "proof": false, "height": 0, "verifies": []int64{}})
+			// a panicking query is no step of the specification: logged for the python side, skipped by the monitor
+			emit(sl.M{"a": "querypanic", "via": via, "s": s, "k": key, "h": h, "p": prove, "panic": r["panic"], "err": true, "value": "<nil>", "proof": false, "height": 0, "verifies": []int64{}})
 			continue
 		}
 		val := "<nil>"
